@@ -43,6 +43,7 @@ CONSTANTS
   Weak_SeenByCommitSlotRange, \* seenVals sized by the COMMIT's length but indexed by the TRUSTED set's validator index:
                               \* a trusted validator whose index is >= len(commit.Signatures) is never remembered
   Weak_TrustsEncodedTotal,    \* ValidatorSetFromProto copies an in-range total_voting_power of the encoded form into the cache
+  Weak_IncompleteIdSignsAsNil, \* CanonicalizeBlockID maps every INCOMPLETE block id (not only the zero one) to nil
   Weak_NoBlockIDCheck,        \* VerifyCommit/Light do not compare the blockID argument with commit.BlockID
   Weak_SignBytesIgnoreRound   \* sign bytes do not bind the round
 
@@ -64,9 +65,15 @@ FlagKnown(flag) == flag \in {"absent", "commit", "nil"}
 \* vote.go:93) over CanonicalizeVote (canonical.go:56):
 \* canonical vote = (type, height, round, block id per flag, slot timestamp, chain id);
 \* neither the validator address nor the index is signed (types/canonical.go)
+\* Block ids: "Z" zero (canonicalised to nil), complete ids ("A", "Ap", "B"), and INCOMPLETE ids -- hash present
+\* but part-set header empty ("Ai") or with total 0 ("Aj").  Votes carry zero-or-complete ids only, but a Commit may
+\* carry an incomplete one (Commit.ValidateBasic refuses only the zero id).  CanonicalizeBlockID (canonical.go:18)
+\* maps ONLY the zero id to nil: an incomplete id is its own value in the sign bytes, not nil.
+IncompleteBids == {"Ai", "Aj"}
+CanonBid(b) == IF Weak_IncompleteIdSignsAsNil /\ b \in IncompleteBids THEN ZeroBid ELSE b
 SignBytes(c, chain, s) ==
   [chain |-> chain, type |-> "precommit", h |-> c.height, r |-> c.round,
-   bid |-> SlotBlockID(s.flag, c.bid), ts |-> s.ts]
+   bid |-> CanonBid(SlotBlockID(s.flag, c.bid)), ts |-> s.ts]
 
 \* PubKey.VerifySignature(signBytes, sig) (crypto/ed25519) for the key of validator `id`
 SigMatches(id, sb, sig, ignoreRound) ==
